@@ -65,5 +65,5 @@ def engine(prop, spec, tier, seed, work):
     return ev, problems, {}
 
 def register(PROPS):
-    PROPS["C11"] = {"engine": "keys", "engine_fn": engine, "monitors": ["C11"],
+    PROPS["C11"] = {"engine": "keys", "engine_fn": engine, "monitors": ["C11"], "translate": ["keys"],
                     "trusted_extra": ["C11: the pointwise sweep of the implementation is exhaustive below 2^32+2^20 only in the thorough tier; serde_json is the wire format used for the round trip"]}
